@@ -139,10 +139,22 @@ def g_leaf(draw: Any, dj: tuple[str, ...], pos: bool, pool: Any = None) -> list[
 
 def g_ratio(draw: Any, value: str) -> list[Any]:
     """A dimensionless tree with exactly the rational value `value`: ratio of two same-unit quantities."""
-    name = draw(st.sampled_from(["meter", "second", "kilogram", "newton", "kilometer", "hour"]))
     b = draw(st.sampled_from(["1", "2", "3", "1/2"]))
     a = str(sympy.Rational(value) * sympy.Rational(b))
-    return ["mul", ["q", ["n", a], name], ["pow", ["q", ["n", b], name], ["n", "-1"]]]
+    form = draw(st.integers(0, 9))
+    if form >= 4:
+        name = draw(st.sampled_from(["meter", "second", "kilogram", "newton", "kilometer", "hour"]))
+        return ["mul", ["q", ["n", a], name], ["pow", ["q", ["n", b], name], ["n", "-1"]]]
+    # dimensionless only after reduction to base dimensions: the named derived dimensions do not cancel structurally
+    binv = str(1 / sympy.Rational(b))
+    if form == 0:
+        return ["mul", ["q", ["n", a], "hertz"], ["q", ["n", binv], "second"]]
+    if form == 1:
+        return ["mul", ["q", ["n", a], "newton"], ["pow", ["mul", ["q", ["n", b], "kilogram"], ["q", ["n", "1"], "meter"],
+            ["pow", ["q", ["n", "1"], "second"], ["n", "-2"]]], ["n", "-1"]]]
+    if form == 2:
+        return ["mul", ["q", ["n", a], "joule"], ["pow", ["mul", ["q", ["n", b], "newton"], ["q", ["n", "1"], "meter"]], ["n", "-1"]]]
+    return ["mul", ["q", ["n", a], "watt"], ["q", ["n", binv], "second"], ["pow", ["q", ["n", "1"], "joule"], ["n", "-1"]]]
 
 
 def g_exponent(draw: Any, value: str) -> list[Any]:
